@@ -784,6 +784,9 @@ func (env *SpecEnv) call(x *ECall) *Val {
 		return mkInt(fx.mapKeyFromLeaves(t, xs), nil)
 	case "structkey":
 		return mkInt(fx.mapKeyTerm(st, arg(0)), nil)
+	case "now":
+		// the clock value (ns since the epoch) last read through time.Now / time.Since in this execution
+		return mkInt(st.heapGet("T|now", "Int"), nil)
 	case "errIs":
 		fx.errAxioms()
 		return mkBool("(errIs " + arg(0).S + " " + arg(1).S + ")")
